@@ -7,4 +7,6 @@ import LC.Props.C13
 #print axioms LC.V1Glue.findAll_first
 #print axioms LC.V1Glue.exact_token_range
 #print axioms LC.V1Glue.exact_token_range_trailing
+#print axioms LC.V1Glue.exact_reports_occurrence
+#print axioms LC.V1Glue.exactBytes_inside
 #print axioms LC.V1Glue.nearest_exact
